@@ -39,7 +39,13 @@ def run(ctx):
             if not isinstance(m, tuple):
                 continue
             menc, mspec = m
+            mspec, conforming = T.split_spec(mspec)
             ic = T.norm_class(impl)
+            if not conforming and ic.startswith("ok"):
+                C.violation(ctx, "nonconforming:%s" % ids[crc][0],
+                            "%s: the value the implementation serialises does not conform to the schema types of its line `%s`: %s"
+                            % (ids[crc][0], ids[crc][1][:160], T.short(g)),
+                            {"kind": "E", "type": name, "value": g, "schema_line": ids[crc][1], "oracle": "TL/Conform.v conforms"})
             if mspec == "illtyped":
                 continue
             if mspec.startswith("ok") or ic.startswith("ok"):
